@@ -1,5 +1,6 @@
 """Shared run logic of the IOStreamContract checks (C11, C12, C13)."""
 import random
+import time
 
 from . import framework
 from . import net_driver as nd
@@ -19,10 +20,14 @@ def _replayer(extra, path):
 def s2c_stream(ctx, gen_cfg, overrides, variants, label="s2c", nontrivial=None):
     """All paths of the bounded state graph (TLC) replayed on the real stream under each variant."""
     global _INDEX, _VARIANTS
+    t0 = time.time()
     paths = nd.graph_paths(ctx, "net", "GenG_IOStreamContract", gen_cfg, overrides=overrides)
+    ctx._phase("gen:" + gen_cfg, t0)
+    t0 = time.time()
     _INDEX = nd.BranchIndex(paths)
     _VARIANTS = variants
     ctx.replay(paths, _replayer, label=label, nontrivial=nontrivial)
+    ctx._phase("replay:" + gen_cfg, t0)
     ctx.cov["replay_variants"] = variants
     return paths
 
@@ -188,6 +193,10 @@ def random_stream_trace(job):
 def c2s_stream(ctx, mode, n, length=None):
     length = length or ctx.pick(40, 60)
     jobs = [(i + 1, ctx.seed * 1000003 + i * 7919 + {"read": 1, "write": 2, "close": 3}[mode], mode, length) for i in range(n)]
+    t0 = time.time()
     traces = framework.pool_map(random_stream_trace, jobs)
+    ctx._phase("record:" + mode, t0)
+    t0 = time.time()
     ctx.validate("net", "Trace_IOStreamContract", "Trace_IOStreamContract.cfg", traces, sig_fn=trace_sig)
+    ctx._phase("validate:" + mode, t0)
     return traces
